@@ -467,6 +467,9 @@ func parseKey(o hx.Op) (string, bool) {
 func runC14(c *hx.Ctx) {
 	var w *world
 	defer func() { w.close() }()
+	if c.St.Findings == nil {
+		c.St.Findings = []hx.Finding{} // "findings": [] rather than null in the stats file
+	}
 	for {
 		op, ok := c.Next()
 		if !ok {
